@@ -403,6 +403,7 @@ type explorer struct {
 	xrate      int
 	xcount     int64
 	modelsWanted int
+	msgCount     map[string]int
 }
 
 type pathResult struct {
@@ -568,14 +569,27 @@ func (ex *explorer) runPath(prefix []int64, sv *Solver) {
 	case outcomeAssumeFalse:
 		atomic.AddInt64(&ex.stats.assumeFalse, 1)
 	default:
-		pr := r.result(r.outcome == outcomeViolation)
-		ex.mu.Lock()
-		ex.results = append(ex.results, pr)
-		if len(ex.results) >= 40 {
-			ex.stop = true
-			ex.cond.Broadcast()
+		key := r.outcome.String() + "|" + r.outcomeMsg
+		if r.viol != nil {
+			key = r.viol.Kind + "|" + normViolMsg(r.viol.Kind, r.viol.Msg)
 		}
+		ex.mu.Lock()
+		if ex.msgCount == nil {
+			ex.msgCount = map[string]int{}
+		}
+		ex.msgCount[key]++
+		keep := ex.msgCount[key] <= 2
 		ex.mu.Unlock()
+		if keep {
+			pr := r.result(r.outcome == outcomeViolation)
+			ex.mu.Lock()
+			ex.results = append(ex.results, pr)
+			if len(ex.results) >= 120 {
+				ex.stop = true
+				ex.cond.Broadcast()
+			}
+			ex.mu.Unlock()
+		}
 	}
 	if n >= ex.maxPaths {
 		ex.mu.Lock()
@@ -712,4 +726,27 @@ func describeDecisions(ds []decision) string {
 		fmt.Fprintf(&sb, "%s=%d", d.kind, d.v)
 	}
 	return sb.String()
+}
+
+// normViolMsg strips thread numbers and other schedule-specific detail so that
+// the same defect found on many paths is kept only a few times.
+func normViolMsg(kind, msg string) string {
+	switch kind {
+	case "race", "deadlock", "crash":
+		var sb strings.Builder
+		digits := false
+		for _, c := range msg {
+			if c >= '0' && c <= '9' {
+				if !digits {
+					sb.WriteByte('#')
+				}
+				digits = true
+				continue
+			}
+			digits = false
+			sb.WriteRune(c)
+		}
+		return sb.String()
+	}
+	return msg
 }
